@@ -2,6 +2,7 @@ import I18n.Lemmas.DomainsGenerated
 import I18n.Lemmas.GettextHdrGenerated
 import I18n.Lemmas.HdrChkGenerated
 import I18n.Lemmas.HdrMimeGenerated
+import I18n.Lemmas.HdrHeadersGenerated
 import I18n.Props.C15
 /-!
 # C15 — the tie by translation: the header checks REGENERATED from the source are the model
@@ -208,7 +209,42 @@ theorem check_mime_nocrash_generated (x : Ext) (env : Charset.Env) (characters :
   | ok r => exact ⟨r, rfl⟩
   | error e => rw [hg] at h; cases h
 
+/-! ## `Checker.check_headers` -/
+
+/-- `check_headers(ctx)` as regenerated — the header-entry discovery loop with its `continue` and `break`, the per-entry part
+    (`parse_header` into the `defaultdict(list)` and the stray lines, the `Counter` of the flags, the position test `entry is not
+    ctx.file[0]`, the unusual characters with `get_character_name` as the one crash site), the stray-line loop with its
+    `seen_conflict_marker` state, and the loop over `sorted(metadata.items())` with the two hint sources — returns exactly the model's tag
+    calls (in order) and `ctx.metadata`, and raises iff the model crashes.  `hl`: `str.lower` on ASCII strings is the ASCII lower-casing
+    (field names are ASCII: `is_valid_field_name`; the registry is: `decide +kernel`). -/
+theorem generated_check_headers_eq_model (x : Ext) (entries : List Entry) (tmpl : Bool) (out : List TagCall)
+    (hl : ∀ s : Str, (∀ c ∈ s, c.toNat < 128) → x.db.lower s = asciiLower s) :
+    I18n.Hdr.Gen.erase (Generated.HdrChk.check_headers x entries tmpl out) =
+      match checkHeaders x tmpl entries with
+      | none => .error ()
+      | some h => .ok (out ++ h.tags, (), h.metadata) :=
+  I18n.Hdr.Gen.check_headers_eq x entries tmpl out hl
+
+/-- **metadata_lookup**, of the regenerated method: the dictionary it leaves in `ctx.metadata` answers `metadata[k]` with the values of
+    the field lines named `k` of the header entry's text, in order -/
+theorem check_headers_metadata_generated (x : Ext) (entries : List Entry) (tmpl : Bool)
+    (hl : ∀ s : Str, (∀ c ∈ s, c.toNat < 128) → x.db.lower s = asciiLower s)
+    (ts : List TagCall) (m : Meta) (h : Generated.HdrChk.check_headers x entries tmpl [] = .ok (ts, (), m)) :
+    ∃ ho, checkHeaders x tmpl entries = some ho ∧ ts = ho.tags ∧ m = ho.metadata := by
+  have e := generated_check_headers_eq_model x entries tmpl [] hl
+  rw [h] at e
+  cases hc : checkHeaders x tmpl entries with
+  | none => rw [hc] at e; cases e
+  | some ho =>
+    rw [hc] at e
+    simp only [I18n.Hdr.Gen.erase_ok, List.nil_append] at e
+    injection e with e
+    injection e with e1 e2
+    injection e2 with _ e3
+    exact ⟨ho, rfl, e1, e3⟩
+
 /-! Non-vacuity -/
+
 
 
 
